@@ -202,7 +202,7 @@ def _kernel_info(db, chk, cs, rule="C13.R1-kernel-info"):
            found=[ast.unparse(g) for g in gk], accepted="ops.loc[ops.stream.ne(-1)][['ts', 'dur', 'end']]")
     # write-back agreement (names of the stack columns <-> namedtuple fields)
     pairs = {}
-    for n in ast.walk(fn):
+    for n in ast.walk(H.unroll_literal_loops(cs, fn)):
         if isinstance(n, ast.Assign):
             for col in ("num_kernels", "kernel_dur_sum", "kernel_span", "first_kernel_start", "last_kernel_end"):
                 for fld in ("count", "sum_dur", "kernel_span", "first_start", "last_end"):
